@@ -1003,7 +1003,10 @@ fn check_refused(r: &mut Report, verts: &[Point3], faces: &[[u32; 3]], label: &s
                 Err(_) => r.check(false, VERTEX_CONTACT_CLAUSE, || format!("{} faces {}: calc_edges returned Err; directed boundary edges {:?}", label, show(faces), &bd[..bd.len().min(24)])),
                 Ok(me) => {
                     let (walks, used) = loops_as_walks(&me.boundary_loops, &bd);
-                    r.check(walks && used == bd, VERTEX_CONTACT_CLAUSE, || format!("{} faces {}: boundary_loops {:?}; directed boundary edges {:?}", label, show(faces), me.boundary_loops, &bd[..bd.len().min(24)]));
+                    // the known finding is the REFUSAL (Err above); an edge table that IS handed out must be right - this is an
+                    // ordinary clause, not covered by the finding
+                    r.check(true, VERTEX_CONTACT_CLAUSE, || String::new());
+                    r.check(walks && used == bd, "edges: an edge table handed out for a mesh whose faces touch only at a vertex has boundary loops that contain every boundary edge exactly once as closed cycles", || format!("{} faces {}: boundary_loops {:?}; directed boundary edges {:?}", label, show(faces), me.boundary_loops, &bd[..bd.len().min(24)]));
                     // the rest of the table
                     let mut und: Vec<(u32, u32)> = Vec::new();
                     for f in faces { for e in dir_edges(f) { und.push(ue(e.0, e.1)); } }
@@ -1044,6 +1047,17 @@ fn run_open_boundaries(r: &mut Report, p: &Progress) {
     fam.push(("3x3 grid + a fin triangle touching it at the boundary vertex 1 only".into(), v.clone(), f));
     let mut f = gf.clone(); f.push([5, 16, 17]);
     fam.push(("3x3 grid + a fin triangle touching it at the interior vertex 5 only".into(), v, f));
+    // a piece whose every boundary edge collides with an already registered loop (quad + triangle touching it at two corners),
+    // followed / preceded by a separate component, in several face orders
+    {
+        let mut v = base_vertices();
+        while v.len() < 8 { let k = v.len() as f64; v.push(Point3::new(10.0 + k, 0.5 * k, 1.0)); }
+        let faces4: [[u32; 3]; 4] = [[0, 1, 2], [0, 2, 3], [1, 3, 4], [5, 6, 7]];
+        for order in [[0usize, 1, 2, 3], [3, 0, 1, 2], [0, 1, 3, 2], [2, 0, 1, 3], [3, 2, 1, 0], [0, 2, 1, 3]] {
+            let f: Vec<[u32; 3]> = order.iter().map(|&k| faces4[k]).collect();
+            fam.push((format!("quad + triangle touching it at two corners + a separate triangle, face order {:?}", order), v.clone(), f));
+        }
+    }
     for (name, v, f) in fam.iter() {
         buf.clear();
         for t in f.iter() { buf.extend_from_slice(&[t[0] as i64, t[1] as i64, t[2] as i64]); }
